@@ -45,6 +45,10 @@ def episode(run, sb, rng, k, rc, samples, names, tag):
     sb.weed("y", None, False, [0, 1000], "no-const", False, False, False, out="empty")
     sb.load_event("empty")
     sb.nk_event("empty")
+    # an empty file still carries its samples: merging with it, in either order, keeps them
+    sb.merge(["empty", "x"], "ex")
+    sb.merge(["x", "empty"], "xe")
+    sb.nk_event("ex")
     run.nontriv([tag, k, rc, samples])
 
 
